@@ -97,6 +97,12 @@ int main(void) {
   B(15);                                   /* XYABSOLUTE */
   B(19); B(0x18); I(x2); I(y2);
   cell_by_name('D');
+#elif ELEM == 12     /* PROPERTY whose name is a PROPNAME reference (C = 1, N = 1) with four explicit values - signed integer, real (type 7), inline b-string,
+                        unsigned integer - and the PROPNAME table (implicit numbering) after the element */
+  uint64_t pv = nd_u64(), rb = nd_u64(); int64_t sv = (int64_t)nd_u64(); uint8_t bch = nd_u8(); ASSUME(sv != INT64_MIN);
+  B(20); B(0x7B); U(layer); U(dtype); U(w); U(h); I(x); I(y);
+  B(28); B(0x46); U(0); B(9); I(sv); B(7); tok_put(K_REALP, rb, 0); B(11); STR1(bch); B(8); U(pv);
+  B(7); STR1('p');
 #endif
   B(2);                /* END */
   uint8_t fname[2] = {'f', 0}; uint32_t err = 0; Lib lib = {0};
@@ -159,6 +165,13 @@ int main(void) {
     if (xs == 0.0 && xe == 0.0) CHECK(el->f5 == 0 || (el->f5 == 3 && VXD(el->f6) == 0.0 && VYD(el->f6) == 0.0), "both ends flush");
     else if (xs == (double)w && xe == (double)w) CHECK(el->f5 == 2 || (el->f5 == 3 && VXD(el->f6) == xs && VYD(el->f6) == xe), "both ends extended by the half-width");
     else CHECK(el->f5 == 3 && VXD(el->f6) == xs && VYD(el->f6) == xe, "ends extended by exactly the denoted lengths"); }
+#elif ELEM == 12
+  { CHECK(c->f1.f1 == 1, "one polygon"); Poly* p = ((Poly**)c->f1.f2)[0]; struct S_struct_gdstk__Property* pr = p->f3;
+    CHECK(pr && pr->f2 == 0 && pr->f0 && pr->f0[0] == 'p' && pr->f0[1] == 0, "one property, named through the PROPNAME table");
+    if (pr) { struct S_struct_gdstk__PropertyValue* v0 = pr->f1; CHECK(v0 && v0->f0 == 1 && (int64_t)PV_U64(v0) == sv, "signed integer value");
+      struct S_struct_gdstk__PropertyValue* v1 = v0 ? v0->f2 : 0; CHECK(v1 && v1->f0 == 2 && PV_U64(v1) == rb, "real value, bit for bit");
+      struct S_struct_gdstk__PropertyValue* v2 = v1 ? v1->f2 : 0; CHECK(v2 && v2->f0 == 3 && PV_U64(v2) == 1 && PV_BYTES(v2)[0] == bch, "inline string value: its byte, whatever it is");
+      struct S_struct_gdstk__PropertyValue* v3 = v2 ? v2->f2 : 0; CHECK(v3 && v3->f0 == 0 && PV_U64(v3) == pv && v3->f2 == 0, "unsigned integer value; four values in file order"); } }
 #elif ELEM == 7
   { CHECK(c->f1.f1 == 1, "one polygon"); Poly* p = ((Poly**)c->f1.f2)[0];
     struct S_struct_gdstk__Property* pr = p->f3; int np = 0;
